@@ -318,6 +318,12 @@ class FnExec:
                 # None is modelled as the only value of its type; values of every other declared type are never None
                 same = isinstance(left.t, NoneT) and isinstance(right.t, NoneT)
                 res.append(z3.BoolVal(same if o in ("Is", "Eq") else not same))
+            elif o in ("Is", "IsNot") and not (isinstance(left.t, BoolT) and isinstance(right.t, BoolT)):
+                # object identity of two non-singleton values is not a function of the values: `a is b` implies a == b, and nothing more is known
+                # (CPython may or may not share equal immutable objects); modelled as a fresh boolean, so a branch on it must be right either way
+                if type(left.t) is not type(right.t): raise Unsupported(f"`is` on {left.t!r},{right.t!r}")
+                same = fresh(BOOL, "same_object").z; pc.append(z3.Implies(same, left.z == right.z))
+                res.append(same if o == "Is" else z3.Not(same))
             else:
                 az, bz = left.z, right.z
                 if isinstance(left.t, IntT) and isinstance(right.t, RealT): az = z3.ToReal(az)
